@@ -250,7 +250,7 @@ class Runner:
     BOUND = 32        # clocks without any handshake while the master has everything asserted
     QUIET = 4         # idle clocks before the hardware side is compared exactly / changed
 
-    def __init__(self, sim, spec, sched, max_clocks=150):
+    def __init__(self, sim, spec, sched, max_clocks=240):
         self.sim, self.spec, self.sched = sim, spec, sched
         self.model = RegModel(spec)
         self.shadow = [dict(st) for st in self.model.state]
@@ -305,6 +305,12 @@ class Runner:
     def _run(self):
         sim, model = self.sim, self.model
         pending = [dict(s) for s in self.sched["steps"]]
+        if self.sched.get("sweep", True):
+            # read every readable register back at the end (state that is not exposed on ports)
+            for inst in model.insts:
+                if model.readable(inst):
+                    pending.append({"op": "r", "addr": inst["off"], "ar": 0, "r": -1, "gap": 0, "start": "seq",
+                                    "sweep": True})
         writes, reads = [], []     # started, not completed (in order)
         last_event = 0             # last clock with bus or hardware activity
         hw_now = dict(model.hw_in)
@@ -504,8 +510,7 @@ class Runner:
             t["new"] = None
             return
         self.labels.add(f"write:{inst['what']}")
-        t["new"] = m.written_state(inst, m.state[inst["idx"]], t["data"], t["strb"])
-        t["alt"] = m.written_state(inst, self.shadow[inst["idx"]], t["data"], t["strb"], ignore_strobe=True)
+        t["new"] = True     # has an effect; the states are derived from the current state when needed
         if t["addr"] % 4:
             self.labels.add("write:unaligned")
         if inst["what"] == "reg":
@@ -515,6 +520,17 @@ class Runner:
                 self.labels.add("write:partial_strobe_multi_field")
             for n in m.classes[inst["cls"]]["notify"]:
                 self._notify(inst, n, "w", k, t)
+
+    def _after(self, t):
+        """(strict state, shadow state) of the target of write t once it has taken effect"""
+        m, inst = self.model, t["inst"]
+        i = inst["idx"]
+        alt = m.written_state(inst, self.shadow[i], t["data"], t["strb"], ignore_strobe=True)
+        if t.get("adopt_alt"):      # a strobe-ignoring effect of this write has been observed and reported
+            new = dict(m.state[i], stored=alt["stored"], known=alt["known"])
+        else:
+            new = m.written_state(inst, m.state[i], t["data"], t["strb"])
+        return new, alt
 
     def _notify(self, inst, n, on, k, t):
         if n["on"] != on:
@@ -531,15 +547,17 @@ class Runner:
         self.counters["writes_done"] += 1
         if t.get("new") is not None:
             i = t["inst"]["idx"]
-            m.state[i] = t["new"]
-            self.shadow[i] = t["alt"]
+            m.state[i], self.shadow[i] = self._after(t)
         self._close(t, k)
 
     def _close(self, t, k):
         for inst_idx, name in t.get("sets", []):
             for states in (self.model.state, self.shadow):
                 st = dict(states[inst_idx])
-                st["notif"] = dict(st["notif"], **{name: 1})
+                val = 1
+                if t["op"] == "w" and t["strb"] == 0 and st["notif"].get(name) != 1:
+                    val = None      # does a write without any strobe notify?  not determined: not compared
+                st["notif"] = dict(st["notif"], **{name: val})
                 states[inst_idx] = st
         for info in self.push_ports.values():
             for win in info["windows"]:
@@ -570,8 +588,9 @@ class Runner:
         t["allowed_alt"].add(m.read_value(inst, self.shadow[i]))
         for wtx in writes:
             if wtx.get("req_done") is not None and wtx.get("inst") is inst and wtx.get("new") is not None:
-                t["allowed"].add(m.read_value(inst, wtx["new"]))
-                t["allowed_alt"].add(m.read_value(inst, wtx["alt"]))
+                new, alt = self._after(wtx)
+                t["allowed"].add(m.read_value(inst, new))
+                t["allowed_alt"].add(m.read_value(inst, alt))
                 t["overlaps_write"] = True
 
     def _read_completed(self, t, k, S):
@@ -591,11 +610,12 @@ class Runner:
         if got in exp:
             return
         if got in t["allowed_alt"]:
-            self.add({"kind": "read_data", "reg": inst["what"], "cause": "strobe_ignored"},
+            self.add({"kind": "write_mask", "reg": inst["what"], "cause": "strobe_ignored"},
                      f"clock {k}: read of 0x{t['addr']:x} ({inst['what']} at 0x{inst['off']:x}) returned {got:#010x}: the value "
                      f"an earlier partial-strobe write would leave if its byte strobes were ignored; strobed-bytes model "
                      f"{sorted(hex(v) for v in exp)}")
-            m.state[inst["idx"]] = self.shadow[inst["idx"]]
+            sh = self.shadow[inst["idx"]]
+            m.state[inst["idx"]] = dict(m.state[inst["idx"]], stored=sh["stored"], known=sh["known"])
             return
         self.add({"kind": "read_data", "reg": inst["what"], "cause": "unexplained"},
                  f"clock {k}: read of 0x{t['addr']:x} ({inst['what']} at 0x{inst['off']:x}) returned "
@@ -638,8 +658,9 @@ class Runner:
             wt = None
             for t in writes:
                 if t.get("inst") is inst and t.get("new") is not None and t.get("req_done") is not None:
-                    exp_c.append(m.outputs(inst, t["new"]))
-                    alt_c.append(m.outputs(inst, t["alt"]))
+                    new, alt = self._after(t)
+                    exp_c.append(m.outputs(inst, new))
+                    alt_c.append(m.outputs(inst, alt))
                     wt = t
             for name, d, ty, role in outs:
                 exp = [c[name] for c in exp_c]
@@ -650,15 +671,14 @@ class Runner:
                 if got in exp:
                     continue
                 if got is not None and got in [c[name] for c in alt_c]:
-                    self.add({"kind": "write_effect", "reg": inst["what"], "cause": "strobe_ignored",
-                              "field": self._role_kind(inst, role)},
-                             f"clock {k}: port {name} shows {got:#x} = the value if the byte strobes of the partial write"
+                    self.add({"kind": "write_mask", "reg": inst["what"], "cause": "strobe_ignored"},
+                             f"clock {k}: {self._role_kind(inst, role)} port {name} shows {got:#x} = the value if the byte strobes of the partial write"
                              + (f" 0x{wt['data']:08x} strb {wt['strb']:04b} to 0x{wt['addr']:x}" if wt else "")
                              + f" were ignored; strobed-bytes model {[hex(e) for e in exp]}")
                     if wt is not None:
-                        wt["new"] = wt["alt"]       # go on with the observed behaviour, the finding is recorded
+                        wt["adopt_alt"] = True      # go on with the observed behaviour, the finding is recorded
                     else:
-                        m.state[i] = self.shadow[i]
+                        m.state[i] = dict(m.state[i], stored=self.shadow[i]["stored"], known=self.shadow[i]["known"])
                     return
                 self.add({"kind": "hw_output", "reg": inst["what"], "field": self._role_kind(inst, role),
                           "phase": "write_in_flight" if wt else "idle"},
@@ -679,11 +699,11 @@ class Runner:
                 if got == exp[name]:
                     continue
                 if got == alt.get(name):
-                    self.add({"kind": "write_effect", "reg": inst["what"], "cause": "strobe_ignored",
-                              "field": self._role_kind(inst, role)},
-                             f"clock {k} ({why}): port {name} shows {got:#x} = the value if the byte strobes of an earlier "
+                    self.add({"kind": "write_mask", "reg": inst["what"], "cause": "strobe_ignored"},
+                             f"clock {k} ({why}): {self._role_kind(inst, role)} port {name} shows {got:#x} = the value if the byte strobes of an earlier "
                              f"partial write were ignored; strobed-bytes model {exp[name]:#x}")
-                    m.state[inst["idx"]] = self.shadow[inst["idx"]]
+                    sh = self.shadow[inst["idx"]]
+                    m.state[inst["idx"]] = dict(m.state[inst["idx"]], stored=sh["stored"], known=sh["known"])
                     return
                 self.add({"kind": "hw_output", "reg": inst["what"], "field": self._role_kind(inst, role),
                           "phase": "quiet"},
